@@ -24,6 +24,14 @@ NOT_APPLICABLE = {
 
 # id -> (technique, level text, level note, design ref)
 CLAIMS = {
+    'C31': ('eq/hash shape analysis of Cluster (commutative fold over normalised keys), alpha-insensitive patterns for site '
+            'normalisation and the orbit-closure idiom, exchange image of the istransition tests, sibling search-range formula',
+            'Static, exhaustive over Cluster and the three cluster generators: decides that hash and equality are translation- '
+            'and order-invariant by construction, that flags survive symmetry images, that a TS cluster matches a jump in '
+            'either direction, that every generator closes orbits under the whole group (and reversal for vacancy TS), and '
+            'that the neighbour search uses the same range as jump networks. Completeness w.r.t. the cutoff is a search and '
+            'not decided.',
+            'trusts CPython ast', 'DESIGN.md §4 C31'),
     'C30': ('import/name resolution in the repository environment, resource existence and packaging-manifest match, '
             'format-template layout vs lexical extraction of the Perl reader, Makefile rule <-> addfile pairing, naming predicates',
             'Static, exhaustive over automator.py, trans.pl and MANIFEST.in: decides that the module imports, that bundled '
